@@ -150,6 +150,20 @@ CHECKS = {
              "parameters); numpy.linalg.solve for transmissibilities. Lines with cond(reference block) > 1e8 not judged.",
         technique="TLC model checking of Spectra.tla/Layout.tla + replay of every partition through SD_PreGER vs SD_est",
     ),
+    "C05": dict(
+        text="PolyId.tla: TLC enumerates (order n, channels, reference rows, basis sign, ordmax in {n, n+2}, dt, line count >= "
+             "4(n+1), root composition of each channel polynomial: stable / unstable conjugate pairs and real roots) and checks "
+             "OnePerRoot, NaNElsewhere, SlotsGrow, OrderWithinMax; predictions: normalisation constraint, column of the order-n "
+             "model, number of reported and blanked poles. The harness builds A(z) = T diag(p_c) S with those roots, a seeded "
+             "B(z), normalises, evaluates B A^-1 on the library's grid and runs pLSCF -> pLSCF_poles and the pLSCF class "
+             "(spectrum injected): coefficients reproduced up to the measured conditioning, reported eigenvalues = exactly the "
+             "roots with non-positive real part under ln(z)/dt (1e-6), Fn/Xi map, NaN elsewhere in every table.",
+        ref="DESIGN.md §4.10, §5 C05, §6",
+        note="Trusted: TLC, numpy.poly / linalg for the construction. Conditioning of each case is measured (coefficient change "
+             "under a 1e-10 perturbation of the spectrum); cases above 1e4 or with singular normal equations are not judged "
+             "and counted; the check is inconclusive (exit 2) when fewer than 25 % of the cases are fully judged.",
+        technique="TLC model checking of PolyId.tla + replay of every enumerated system through pLSCF / pLSCF_poles / the pLSCF class",
+    ),
     "C06": dict(
         text="Fdd.tla: TLC enumerates singular-value tables (exact ratio comparison by cross-multiplication), selected "
              "frequencies on a quarter-line lattice and band half-widths >= one spacing, and computes the set of "
